@@ -361,6 +361,39 @@ func genC10(r *gen.Rng, tier string, emit func(string)) {
 			permute(items, func(p []string) { emit("combine " + strings.Join(p, ";")) })
 		}
 	}
+	// long messages: totals around every power of two up to the 255 the one-octet total allows, in order, reversed,
+	// shuffled, with one segment missing, and the same key reused right after completion
+	for _, total := range []int{31, 32, 33, 63, 64, 65, 66, 127, 128, 129, 200, 254, 255} {
+		for variant := 0; variant < scale(tier, 3, 6); variant++ {
+			m := msg{advAddrs[r.Intn(len(advAddrs))], advAddrs[r.Intn(len(advAddrs))], r.Pick(0, 7, 255, 256, 65535), total, r.Bool()}
+			if !m.wide {
+				m.ref &= 0xFF
+			}
+			var items []string
+			for sq := 1; sq <= total; sq++ {
+				items = append(items, seg(m, sq))
+			}
+			switch variant % 3 {
+			case 1:
+				for a, b := 0, len(items)-1; a < b; a, b = a+1, b-1 {
+					items[a], items[b] = items[b], items[a]
+				}
+			case 2:
+				for j := len(items) - 1; j > 0; j-- {
+					q := r.Intn(j + 1)
+					items[j], items[q] = items[q], items[j]
+				}
+			}
+			if variant >= 3 {
+				items = append(items[:total/2], items[total/2+1:]...) // one segment never arrives
+			}
+			// the same key again, two segments
+			m2 := m
+			m2.n = 2
+			items = append(items, seg(m2, 1), seg(m2, 2))
+			emit("combine " + strings.Join(items, ";"))
+		}
+	}
 	n := scale(tier, 2500, 50000)
 	for i := 0; i < n; i++ {
 		k := r.Range(1, 4)
